@@ -990,6 +990,8 @@ class IntDom:
             return a
         if op == "bvand":
             a, b = args
+            if isinstance(a, IPoly) and isinstance(b, IPoly) and a.t == b.t and a.w == b.w:
+                return a  # x & x (e.g. _mm256_testz_si256(x, x))
             for x, y in ((a, b), (b, a)):
                 c = self._const(y)
                 if c is not None and c & (c + 1) == 0:  # mask 2^k-1
